@@ -35,6 +35,9 @@ def suite(tree, extra=()):
     env.pop('MAPPROXY_VERIF', None)
     cmd = ['/venv/bin/python', '-m', 'pytest', '-ra', '-q', '-p', 'no:cacheprovider', '--timeout=900',
            '--continue-on-collection-errors', '--junitxml=' + junit] + list(extra)
+    # own network namespace (loopback up): the suite's mock servers use fixed ports, other suites run concurrently
+    import shlex
+    cmd = ['unshare', '-n', 'sh', '-c', 'ip link set lo up; exec ' + ' '.join(shlex.quote(c) for c in cmd)]
     rc, out = sh(cmd, cwd=tree, env=env)
     passed = set()
     try:
